@@ -115,6 +115,28 @@ def tree_cases(seed, n, mutate):
         yield mk_case(ds, src)
 
 
+def line_ending_cases(seed, n, gates):
+    """the conditional-tree and macro-line cases with other line endings and blanks: CRLF files (every line keeps a trailing
+    carriage return after the split at \\n), stray \\r / vertical tab / form feed / blanks after directives and names"""
+    r = Rng(seed, 173)
+    src_gens = [tree_cases(seed + 7, n // 2, False), macro_cases(seed + 7, n - n // 2, gates)]
+    for g in src_gens:
+        for line in g:
+            defs, src, file = parse_case(line)
+            mode = r.below(3)
+            if mode == 0:
+                src = src.replace("\n", "\r\n")
+            else:
+                ls = src.split("\n")
+                for i in range(len(ls)):
+                    if ls[i] and (mode == 1 or ls[i].lstrip().startswith("#")) and r.chance(60):
+                        ls[i] = ls[i] + r.choice(["\r", " ", "\t", "\x0b", "\x0c", " \r", "\r\r"])
+                    if ls[i].startswith("#") and r.chance(20):
+                        ls[i] = r.choice([" ", "\t", "\x0c"]) + ls[i]
+                src = "\n".join(ls)
+            yield mk_case(defs, src, file)
+
+
 MACRO_NAMES = ["A", "B", "MAX", "N_1", "foo", "_x", "Z9"]
 
 
@@ -324,6 +346,7 @@ def main(a):
     suites.append(("many-occurrences", many_cases()))
     suites.append(("random-trees", tree_cases(a.seed, 20000 if quick else 400000, mutate=True)))
     suites.append(("macro-lines", macro_cases(a.seed, 20000 if quick else 400000, gates)))
+    suites.append(("line-endings", line_ending_cases(a.seed, 6000 if quick else 100000, gates)))
 
     dist = {}
     samples = []
